@@ -155,6 +155,22 @@ func cmdCheck(args []string) int {
 			return false
 		})
 		out.runs = append(out.runs, runs...)
+		// type-level obligations (decided without a solver) ride on a pseudo run
+		tl := &FnRun{eng: eng, relName: "types"}
+		for _, o := range eng.typeLevelObligations() {
+			keep := false
+			for _, t := range o.Tags {
+				if t == prop {
+					keep = true
+				}
+			}
+			if keep {
+				tl.obls = append(tl.obls, o)
+			}
+		}
+		if len(tl.obls) > 0 {
+			out.runs = append(out.runs, tl)
+		}
 	}
 	var known []KnownFinding
 	loadJSON(filepath.Join(*verif, "known_findings.json"), &known)
@@ -391,6 +407,9 @@ func writeEvidence(verif, prop, tier string, seed int, spec *PropSpec, out *chec
 	assumptions := map[string]bool{}
 	var abstracted, unmodelled, inlined, noInv []string
 	for _, r := range out.runs {
+		if r.fn == nil {
+			continue
+		}
 		fn := r.fn.Pkg.Pkg.Name() + ":" + r.relName
 		if r.fc != nil {
 			if r.fc.Trusted {
